@@ -38,6 +38,8 @@ type Obligation struct {
 	ShapeSeed  string   `json:"-"`
 	LocalSeed  string   `json:"-"`                     // fingerprint of the construct itself (a loop's blocks)
 	ShapeLocal string   `json:"shape_local,omitempty"` // rule ~ function name ~ construct fingerprint ~ ordinal
+	LocalSize  int      `json:"-"`                     // instructions in the construct
+	ShapePkg   string   `json:"shape_pkg,omitempty"`   // rule ~ package ~ construct fingerprint ~ ordinal (large constructs only)
 	ByShape    bool     `json:"matched_by_shape,omitempty"`
 }
 
@@ -105,6 +107,9 @@ type tableRow struct {
 	// same function name, same construct (by its own fingerprint): survives edits
 	// elsewhere in the function and a renamed construct
 	ShapeLocal string `json:"shape_local,omitempty"`
+	// same package, same construct, for constructs large enough to be unmistakable:
+	// survives the construct being moved into another function of the package
+	ShapePkg string `json:"shape_pkg,omitempty"`
 }
 
 type Tables struct {
@@ -204,7 +209,7 @@ func (c *Check) Classify(t *Tables) {
 	// a row whose key matches nothing on this run but whose shape matches o: the
 	// same code under another name
 	byShape := func(rows []tableRow, o *Obligation) *tableRow {
-		if o.Shape == "" && o.ShapeLocal == "" {
+		if o.Shape == "" && o.ShapeLocal == "" && o.ShapePkg == "" {
 			return nil
 		}
 		for _, mode := range []int{1, 2} {
@@ -213,7 +218,7 @@ func (c *Check) Classify(t *Tables) {
 				if live[r.Key] {
 					continue
 				}
-				if !(r.Shape != "" && r.Shape == o.Shape) && !(r.ShapeLocal != "" && r.ShapeLocal == o.ShapeLocal) {
+				if !(r.Shape != "" && r.Shape == o.Shape) && !(r.ShapeLocal != "" && r.ShapeLocal == o.ShapeLocal) && !(r.ShapePkg != "" && r.ShapePkg == o.ShapePkg) {
 					continue
 				}
 				named := r.Property != "*" && (r.Property == c.Prop || strings.Contains(","+r.Property+",", ","+c.Prop+","))
@@ -461,4 +466,10 @@ func (c *Check) finish(t *Tables, start time.Time, extra map[string]interface{},
 		return 1
 	}
 	return 0
+}
+
+// setLocal records the fingerprint and size of the construct an obligation is about.
+func (o *Obligation) setLocal(seed string, size int) *Obligation {
+	o.LocalSeed, o.LocalSize = seed, size
+	return o
 }
